@@ -54,6 +54,8 @@ type pipeScenario struct {
 	Stop     uint64
 	// Prior >= 0: a position row (Prior, hash of that block) exists before the first step
 	Prior int64
+	// Table: the table's name ("" = the pool's plain lower-case name)
+	Table string
 	// FinalGrow blocks appended after the history so that the head ends strictly
 	// above every recorded position (C03's reading of "the source settles").
 	FinalGrow int
@@ -65,7 +67,7 @@ func (ps *pipeScenario) Describe() map[string]any {
 		hs = append(hs, h.String())
 	}
 	return map[string]any{"seed": ps.Seed, "mode": model.Mode(ps.Mode).String(), "batch": ps.Batch, "concurrency": ps.Conc, "start_kind": ps.StartK,
-		"initial_blocks": ps.Initial, "hash_plan": ps.HashPlan, "notify": ps.Notify, "history": strings.Join(hs, " "), "final_grow": ps.FinalGrow}
+		"initial_blocks": ps.Initial, "hash_plan": ps.HashPlan, "notify": ps.Notify, "history": strings.Join(hs, " "), "final_grow": ps.FinalGrow, "table": ps.Table}
 }
 
 // faultSpec addresses one I/O operation of one step and a fault kind.
@@ -175,7 +177,11 @@ func (ps *pipeScenario) build(r *vk.RNG) (*scen.Spec, *simnode.Chain, *model.Dec
 	if ps.StartAbs >= 0 && ps.explicit {
 		start = uint64(ps.StartAbs)
 	}
-	d := gen.Decl(r, gen.DeclOpts{Mode: ps.Mode, Name: namePoolIG[0], Table: namePoolTbl[0], Src: namePoolSrc[0], Start: start, Stop: ps.Stop,
+	tbl := namePoolTbl[0]
+	if ps.Table != "" {
+		tbl = ps.Table
+	}
+	d := gen.Decl(r, gen.DeclOpts{Mode: ps.Mode, Name: namePoolIG[0], Table: tbl, Src: namePoolSrc[0], Start: start, Stop: ps.Stop,
 		ABI: pipeABI, Exclude: gen.SafeExclude, SelIndexed: r.Bool(), HashPlan: ps.HashPlan})
 	if ps.Notify {
 		cols := d.TableColumns()
